@@ -286,6 +286,8 @@ class Sym(Interp):
             # (x if c else (y, 0))[k]: the index goes into both alternatives - a display is taken apart, an opaque value indexed
             return self.mkphi(b[1], T(self.h_subscript(b[2], idx, n, env, ctx)), T(self.h_subscript(b[3], idx, n, env, ctx)))
         ti = T(idx)
+        if b[0] == "attr" and b[2] == "shape" and is_const(ti, 0):
+            return ("ext", "len", (b[1],), ())                    # X.shape[0] is len(X) (only arrays have a shape)
         FULLS = ("slice", NONE, NONE, NONE)
         if b[0] == "sub" and isinstance(ti, tuple) and ti and ti[0] == "tuple" and len(ti[1]) == 2 and ti[1][0] == FULLS and isinstance(b[2], tuple) and b[2] and \
                 b[2][0] not in ("tuple", "slice", "const") and not (b[2][0] in ("elem", "idx")):
@@ -487,6 +489,11 @@ class Sym(Interp):
                 not any(isinstance(a, tuple) and a and a[0] == "*" for a in args):
             # np.atleast_1d(a, b, c) is the sequence of the three single conversions
             return TupleV([self.h_call_ext(d, n, [a], {}, env, ctx) for a in args], "tuple")
+        if d in ("numpy.zeros", "numpy.empty", "numpy.ones") and len(args) == 1 and set(kwargs) == {"dtype"}:
+            sh, dt = T(args[0]), T(kwargs["dtype"])
+            if sh[0] == "attr" and sh[2] == "shape" and dt == ("attr", sh[1], "dtype"):
+                # np.zeros(X.shape, dtype=X.dtype) is np.zeros_like(X)
+                return self.h_call_ext(d + "_like", n, [sh[1]], {}, env, ctx)
         if d in ("numpy.flatnonzero", "numpy.nonzero") and len(args) == 1 and not kwargs and not (isinstance(args[0], tuple) and args[0] and args[0][0] == "*"):
             # one spelling for "the indices where x is non-zero": np.nonzero(x) is np.where(x); np.flatnonzero(x) is np.where(x)[0] (for the 1-D
             # masks and columns it is applied to here; on a 2-D array the two differ, and so do the rules that would read either)
